@@ -306,13 +306,13 @@ def run(tier, seed):
     ck = harness.Check(PID, tier, seed)
     ck.encode("find_local_clifford_layer.find_local_clifford_layer", "find_local_clifford_layer.check_LC", "find_local_clifford_layer.local_clifford_layer_to_circuit",
               "find_local_clifford_layer.generate_single_qubit_symplectic/generate_local_clifford_symplectic", "f2_algebra.null_space/rank/rref/mat_mul/add")
-    ck.bounds += ["n=2: every set of m=1,2 Paulis (unconstrained: also non-commuting / dependent), both graphs; n=3: m=1 complete for every graph on 3 vertices, m=2 complete for every graph (quick: 3 seeded graphs), m=3: a seeded %s of the 2048 (graph, 8-bit) partitions of the 2^18 x 8 input space" % ("16" if tier == "quick" else "512"),
+    ck.bounds += ["n=2: every set of m=1,2 Paulis (unconstrained: also non-commuting / dependent), both graphs; n=3: m=1 complete for every graph on 3 vertices, m=2 complete for every graph (quick: 2 seeded graphs), m=3: a seeded %s of the 2048 (graph, 8-bit) partitions of the 2^18 x 8 input space" % ("16" if tier == "quick" else "512"),
                   "n=4..6: L|G_c> with L symbolic on a 1-2 qubit window against the graph of the own class and of other classes, full generator sets and subsets (m<n); product class vs empty graph on 6 qubits (largest kernel)",
                   "completeness: per 'None' path one exists-layer query over all 6^n layers and all inputs on the path; soundness: per 'layer' path the defining equation for all inputs on the path",
                   "n=4,5 (m=n): seeded random unconstrained operator sets with 6 symbolic entries each (64 neighbours per seed) against a seeded graph - reaches systems with a trivial kernel",
                   "all 3^n product stabilizer groups for n=4,5 (thorough: also n=6; quick n=6: 18 seeded ones) with per-qubit Pauli symbolic, against the empty graph: the largest kernels (dimension 3n)",
                   "every graph on n<=4 vertices (quick n=5,6: ~150-200 graphs each, stratified by edge count; thorough: all 1024 / 32768) against itself with one symbolic Clifford, incl. agreement of the NATIVE search (machine-integer semantics) on a model of every leaf",
-                  "all 6^5 local-Clifford layers for one class per entanglement structure of n=5 (quick: seeded 2 structures) against its own graph",
+                  "all 6^5 local-Clifford layers for one class per entanglement structure of n=5 (quick: 1 seeded structure) against its own graph",
                   "gate emission: symbolic 2x2 block at every qubit position n=1..6"]
     ck.outside += ["n>=4 operator sets that are not local-Clifford images of class graphs restricted to generator subsets"]
     rnd = random.Random(seed)
@@ -320,7 +320,7 @@ def run(tier, seed):
     for m in (1, 2):
         for gid in range(2):
             jobs.append(("s", (2, m, gid, ())))
-    g32 = list(range(8)) if tier == "thorough" else sorted(rnd.sample(range(8), 3))
+    g32 = list(range(8)) if tier == "thorough" else sorted(rnd.sample(range(8), 2))
     for gid in range(8):
         jobs.append(("s", (3, 1, gid, ())))
         if gid in g32:
@@ -359,7 +359,7 @@ def run(tier, seed):
     # full local-Clifford layer (all 6^5 layers) for one class per entanglement structure of n=5, against its own graph:
     # two qubits fixed per job (36 jobs), the other three symbolic
     structs5 = pipeline._structure_reps(5)
-    chosen = structs5 if tier == "thorough" else rnd.sample(structs5, 2)
+    chosen = structs5 if tier == "thorough" else rnd.sample(structs5, 1)
     for c in chosen:
         for b0 in range(6):
             for b1 in range(6):
